@@ -556,6 +556,10 @@ def gen_C06(rng, tier):
         r = rng.random()
         f = gen.gen_file(rng, big=rng.random() < 0.25, zero_blocks=rng.random() < 0.5, max_chains=4)
         qs = gen.gen_intervals(rng, f, 10) + [("a", "+", 0, 0), ("a", "-", U64, 0), ("a", "+", 0, U64)]
+        for ctg in sorted({c["tname"] for c in f})[:2]:
+            # extreme and zero-length intervals on contigs the machine knows
+            qs += [(ctg, "+", U64, U64), (ctg, "-", U64, U64), (ctg, "+", 0, 0), (ctg, "-", 0, 0), (ctg, "+", U64 - 1, U64), (ctg, "-", U64, U64 - 1),
+                   (ctg, "+", 0, U64), (ctg, "-", U64, 0)]
         if r < 0.3:
             data, fam = gen.render(f), "valid(+zero-blocks)"
         elif r < 0.6:
